@@ -152,4 +152,22 @@ CHECKS = {
            'checks': {'quick': 2400, 'thorough': 96000},
            'shards': {'quick': 8, 'thorough': 16},
            'timeout': {'quick': 600, 'thorough': 3600}}]},
+    'C13': {'level': 'exploration',
+ 'assumptions': ['schedules are sampled, not enumerated: the Go scheduler and the race detector see only the interleavings that actually ran; a '
+                 'schedule-dependent failure is reproduced by re-running the saved plan, not deterministically',
+                 "handlers are pure functions of the request, so 'the same call alone' is computable from the plan"],
+ 'jobs': [{'pkg': 'c13',
+           'run': 'TestPlansMem',
+           'race': True,
+           'checks': {'quick': 96, 'thorough': 4800},
+           'shards': {'quick': 16, 'thorough': 16},
+           'timeout': {'quick': 600, 'thorough': 7200},
+           'shrinktime': '60s'},
+          {'pkg': 'c13',
+           'run': 'TestPlansSock',
+           'race': True,
+           'checks': {'quick': 32, 'thorough': 1600},
+           'shards': {'quick': 8, 'thorough': 16},
+           'timeout': {'quick': 600, 'thorough': 7200},
+           'shrinktime': '60s'}]},
 }
